@@ -532,6 +532,209 @@ def run_one_case(case: dict) -> dict:
     return {"viol": viol, "xd": xd, "xv": xv, "io": digest(io)}
 
 
+# =========================================================================== concurrent callers (O6)
+
+INTER_EVERY = 5  # every fifth C11 scenario id is an interleaved-callers scenario
+
+
+def gen_inter_case(seed: int, s: int, wid: int) -> dict:
+    """2-3 callers canonicalise related expressions at the same time (same names, near-duplicates, permuted
+    presentations, different orderings).  The abstract part depends on (seed, s) only; the schedule on wid too."""
+    rng = random.Random(f"{seed}:C11i:{s}")
+    names = world.gen_names(rng, rng.randint(3, 5), common=rng.random() < 0.5)
+    flags = {"tie_first_child": rng.random() < 0.3, "same_name_cf": rng.random() < 0.2, "near_dup": rng.random() < 0.4,
+             "p_pp": rng.choice((0.0, 0.15, 0.5)), "pops": ["pi1", "pi2"]}
+    base = [gen_expr(rng, names, rng.choice((1, 2, 2, 3)), flags) for _ in range(rng.randint(1, 2))]
+    callers: dict[str, list] = {}
+    for ci in range(rng.randint(2, 3)):
+        tasks = []
+        for _ in range(rng.randint(1, 3)):
+            r = rng.choice(base)
+            x = rng.random()
+            if x < 0.35:
+                r2 = present(rng, r)
+            elif x < 0.6:
+                r2 = _sibling(rng, r, flags) or r
+            elif x < 0.8:
+                r2 = gen_expr(rng, names, rng.choice((1, 2, 3)), flags)
+            else:
+                r2 = r
+            allnames = sorted(recipe_names(r2))
+            om = rng.choice(("none", "alpha", "perm", "perm-var"))
+            o = None if om == "none" else list(allnames)
+            if om in ("perm", "perm-var"):
+                rng.shuffle(o)
+            tasks.append({"recipe": r2, "ordering": o, "ordering_as_variables": om == "perm-var"})
+        callers[f"c{ci}"] = tasks
+    prng = random.Random(f"{seed}:C11i:{s}:w{wid}")
+    pol = prng.choice(("uniform", "uniform", "pct", "hot"))
+    pop = {"policy": pol, "p": prng.choice((0.003, 0.02, 0.1, 0.3)) if pol == "uniform" else prng.choice((0.003, 0.02)),
+           "pct_d": prng.randint(1, 4)}
+    return {"prop": "C11", "kind": "inter", "seed": seed, "scenario": s, "worker": wid, "callers": callers, "pop": pop,
+            "flags": flags}
+
+
+def run_inter_case(case: dict, explicit: bool = False) -> dict:
+    """Sequential reference pass, then the same tasks with the callers interleaved; results must be identical."""
+    from kernel import Sched
+
+    viol: list[dict] = []
+    xd: dict[str, Any] = {}
+    xv: dict[str, Any] = {}
+    stats = {"events": 0, "switches": 0, "hot_points": 0, "nontrivial": False, "interleaving": None}
+
+    def task_fn(t: dict) -> Any:
+        e = build(t["recipe"])
+        o = _ordering(t)
+        return lambda: canonicalize(e, o)
+
+    def ser_out(status: str, val: Any) -> Any:
+        if status == "ok":
+            return ["ok", ser_expr(val), str(val)]
+        if status == "exc":
+            return ["raised", type(val).__name__]
+        return [status]
+
+    callers = case["callers"]
+    seq: dict[tuple, Any] = {}
+    lines: dict[tuple, int] = {}
+    s0 = Sched(mode="prng", seed="seq", policy="seq")
+
+    def mk_body(c: str, store: dict, rec_lines: dict | None) -> Any:
+        def body(s: Any, name: str) -> None:
+            for k, t in enumerate(callers[c]):
+                status, val = s.run_op(k, task_fn(t))
+                store[(c, k)] = ser_out(status, val)
+                if rec_lines is not None:
+                    rec_lines[(c, k)] = s.states[c].line
+        return body
+
+    s0.run({c: mk_body(c, seq, lines) for c in sorted(callers)})
+    for (c, k), val in sorted(seq.items()):
+        xv[f"{c}.{k}"] = val
+        xd[f"{c}.{k}"] = digest(val)
+    # interleaved pass
+    if explicit or "schedule" in case:
+        s1 = Sched(mode="explicit", explicit=case.get("schedule") or [])
+    else:
+        pop = case["pop"]
+        s1 = Sched(mode="prng", seed=f"{case['seed']}:C11i:{case['scenario']}:{case['worker']}", policy=pop["policy"],
+                   p=pop["p"], pct_d=pop["pct_d"], pct_k=max(10, sum(lines.values())))
+    got: dict[tuple, Any] = {}
+    s1.run({c: mk_body(c, got, None) for c in sorted(callers)})
+    case["_rec_schedule"] = s1.schedule()
+    stats["events"] = s0.events + s1.events
+    stats["switches"] = s1.switches
+    stats["hot_points"] = s1.hot_points
+    inside = [x for x in s1.log if x[1] not in ("begin", "end") and x[2] > 0]
+    stats["nontrivial"] = bool(inside)
+    if inside:
+        stats["interleaving"] = digest(s1.log)
+    for key in sorted(seq):
+        a, b = seq[key], got.get(key)
+        if a == b:
+            continue
+        c, k = key
+        if b is not None and b[0] == "raised" and a[0] == "ok":
+            pred = f"raised-under-interleaving:{b[1]}"
+        elif b is not None and b[0] == "ok" and a[0] == "ok":
+            pred = "result-differs-from-sequential" if a[1] != b[1] else "str-differs-from-sequential"
+        else:
+            pred = "outcome-differs-from-sequential"
+        viol.append({"sig": f"C11/O6/concurrent-callers/{pred}", "oracle": "O6", "site": "concurrent-callers", "pred": pred,
+                     "detail": {"caller": c, "task": k, "sequential": a, "interleaved": b}})
+        break
+    e0 = build(callers[sorted(callers)[0]][0]["recipe"])
+    io = [ser_var(x) for x in e0.get_variables()]
+    return {"viol": viol, "xd": xd, "xv": xv, "io": digest(io), "stats": stats}
+
+
+def explicit_inter(case: dict) -> dict:
+    out = copy.deepcopy({k: v for k, v in case.items() if k not in ("_rec_schedule", "pop")})
+    out["schedule"] = case.get("_rec_schedule", case.get("schedule", []))
+    return out
+
+
+def minimise_inter(case: dict, sig: str, max_runs: int = 300) -> tuple[dict, dict]:
+    used = 0
+    info: dict[str, Any] = {"sig": sig, "steps": []}
+
+    def fails(c: dict) -> bool:
+        nonlocal used
+        if used >= max_runs:
+            return False
+        used += 1
+        try:
+            return any(x["sig"] == sig for x in run_inter_case(copy.deepcopy(c), explicit=True)["viol"])
+        except Exception:  # noqa: BLE001
+            return False
+
+    cur = copy.deepcopy(case)
+    if not fails(cur):
+        info["reproduced"] = False
+        info["runs"] = used
+        return cur, info
+    info["reproduced"] = True
+    c = copy.deepcopy(cur)
+    c["schedule"] = []
+    info["interleaving_needed"] = not fails(c)
+    if not info["interleaving_needed"]:
+        cur = c
+    # tasks -> trivial placeholder (indices stay stable for the schedule)
+    for cn in sorted(cur["callers"]):
+        for k in range(len(cur["callers"][cn])):
+            c = copy.deepcopy(cur)
+            c["callers"][cn][k] = {"recipe": ["1"], "ordering": None, "ordering_as_variables": False}
+            if c["callers"][cn][k] != cur["callers"][cn][k] and fails(c):
+                cur = c
+                info["steps"].append(f"task-{cn}.{k}-trivial")
+    # schedule entries
+    inner = [e for e in cur.get("schedule", []) if e[1] not in ("begin", "end")]
+    i = 0
+    while i < len(inner) and used < max_runs:
+        cand = inner[:i] + inner[i + 1 :]
+        c = copy.deepcopy(cur)
+        keep = [tuple(e) for e in cand]
+        c["schedule"] = [e for e in cur["schedule"] if e[1] in ("begin", "end") or tuple(e) in keep]
+        if fails(c):
+            cur, inner = c, cand
+        else:
+            i += 1
+    info["steps"].append(f"switches->{len(inner)}")
+    # shrink the remaining recipes
+    for cn in sorted(cur["callers"]):
+        for k in range(len(cur["callers"][cn])):
+            progress = True
+            while progress and used < max_runs:
+                progress = False
+                for cand in _shrinks(cur["callers"][cn][k]["recipe"]):
+                    c = copy.deepcopy(cur)
+                    t = c["callers"][cn][k]
+                    t["recipe"] = cand
+                    if t.get("ordering") is not None:
+                        nm = recipe_names(cand)
+                        t["ordering"] = [n for n in t["ordering"] if n in nm] + sorted(nm - set(t["ordering"]))
+                    if fails(c):
+                        cur = c
+                        progress = True
+                        info["steps"].append(f"shrink-{cn}.{k}")
+                        break
+    info["runs"] = used
+    return cur, info
+
+
+def make_case(seed: int, s: int, wid: int) -> dict:
+    if s % INTER_EVERY == INTER_EVERY - 1:
+        return gen_inter_case(seed, s, wid)
+    c = gen_case(seed, s)
+    c["eval_order"] = eval_order(c, wid)
+    return c
+
+
+def run_any(case: dict) -> dict:
+    return run_inter_case(case) if case.get("kind") == "inter" else run_one_case(case)
+
+
 # =========================================================================== worker entry points
 
 
@@ -552,11 +755,33 @@ def run_range(args: dict, out: Any) -> None:
     agg: dict[str, Any] = {"top_types": {}, "canon_types": {}, "flags": {}, "raised": {}, "presentations": 0,
                            "verdict_pairs": 0, "str_contains_level2": 0}
     samples = []
+    inter: set = set()
+    nontrivial = 0
     from order import scenario_order
 
     for s in scenario_order(args["lo"], args["hi"], seed, wid):
         if time.time() - t0 > args.get("wall", 1e9):
             break
+        if s % INTER_EVERY == INTER_EVERY - 1:
+            case = gen_inter_case(seed, s, wid)
+            case["hashseed"] = args["hashseed"]
+            res = run_inter_case(case)
+            done += 1
+            st = res["stats"]
+            for k in ("events", "switches", "hot_points"):
+                agg[k] = agg.get(k, 0) + st[k]
+            agg["inter_scenarios"] = agg.get("inter_scenarios", 0) + 1
+            agg["inter_tasks"] = agg.get("inter_tasks", 0) + sum(len(v) for v in case["callers"].values())
+            nontrivial += int(st["nontrivial"])
+            if st["interleaving"]:
+                inter.add(st["interleaving"])
+            line = {"t": "scen", "s": s, "w": wid, "hs": args["hashseed"], "xd": res["xd"], "io": res["io"],
+                    "ed": digest([res["xd"], case.get("_rec_schedule")])}
+            if res["viol"]:
+                line["viol"] = res["viol"][:10]
+                line["case"] = explicit_inter(case)
+            out.write(json.dumps(line) + "\n")
+            continue
         case = gen_case(seed, s)
         case["hashseed"] = args["hashseed"]
         case["eval_order"] = eval_order(case, wid)
@@ -586,10 +811,15 @@ def run_range(args: dict, out: Any) -> None:
                             "canonical_str": res["xv"].get("str")})
         out.write(json.dumps(line) + "\n")
     out.write(json.dumps({"t": "stats", "w": wid, "hashseed": args["hashseed"], "done": done, "agg": agg,
-                          "interleavings": [], "nontrivial": 0, "samples": samples, "wall": time.time() - t0}) + "\n")
+                          "interleavings": sorted(inter), "nontrivial": nontrivial, "samples": samples,
+                          "wall": time.time() - t0}) + "\n")
 
 
 def replay(case: dict) -> dict:
+    if case.get("kind") == "inter":
+        res = run_inter_case(case, explicit=True)
+        return {"t": "replay", "viol": res["viol"], "xd": res["xd"], "xv": res["xv"],
+                "ed": digest([res["xd"], res["io"], case.get("_rec_schedule")])}
     res = run_one_case(case)
     return {"t": "replay", "viol": res["viol"], "xd": res["xd"], "xv": res["xv"], "ed": digest([res["xd"], res["io"]])}
 
@@ -727,6 +957,9 @@ def shrink_case(case: dict, fails: Any, max_runs: int) -> tuple[dict, dict]:
 
 
 def minimise(case: dict, sig: str, max_runs: int = 400) -> tuple[dict, dict]:
+    if case.get("kind") == "inter":
+        return minimise_inter(case, sig, max_runs)
+
     def fails(c: dict) -> bool:
         return any(x["sig"] == sig for x in run_one_case(c)["viol"])
 
